@@ -2,7 +2,11 @@
 
 package otto
 
+import "errors"
+
 type verifHalt struct{}
+
+var verifErr = errors.New("halt")
 
 var verifInterruptPrograms = []struct {
 	src      string
@@ -22,6 +26,9 @@ var verifInterruptPrograms = []struct {
 	{"for (;;) { if (++hits > 2) break } done = true", 3},
 	{"for (var k in {a: 1, b: 2}) { hits++ } done = true", 2},
 	{"lbl: { for (var i = 0; i < 3; i++) { if (i == 1) break lbl } } done = true", 2},
+	{"while (flag) {} done = true", 3},            // empty body, bare-identifier condition (host getter)
+	{"do {} while (flag); done = true", 3},
+	{"for (; flag; ) {} done = true", 3},
 }
 
 // C18: an interrupt function that panics, delivered at any poll, unwinds Run
@@ -31,8 +38,26 @@ func VerifH_C18_interrupt() {
 	vm := New()
 	prog := verifInterruptPrograms[verifChoose(len(verifInterruptPrograms))]
 	vm.Run("var hits = 0, done = false, swallowed = false, fin = false")
+	// 'flag' is a global whose getter is a host function: true three times
+	ticks := 0
+	vm.Set("verifTick", func(call FunctionCall) Value {
+		ticks++
+		return toValue(ticks <= 3)
+	})
+	vm.Run("Object.defineProperty(this, 'flag', {get: verifTick, configurable: true})")
+	// the interrupt function panics with one of several kinds of value
+	pk := verifChoose(3)
 	scopeBefore := vm.runtime.scope
-	vm.Interrupt = verifPollChan(func() { panic(verifHalt{}) }, verifParam("polls", 40))
+	vm.Interrupt = verifPollChan(func() {
+		switch pk {
+		case 0:
+			panic(verifHalt{})
+		case 1:
+			panic(toValue("halt"))
+		default:
+			panic(verifErr)
+		}
+	}, verifParam("polls", 40))
 	verifLog("program: " + prog.src)
 	var rerr error
 	kind, val := verifCatch(func() { _, rerr = vm.Run(prog.src) })
@@ -42,8 +67,19 @@ func VerifH_C18_interrupt() {
 	verifCover("ran")
 	if fired {
 		verifCover("interrupted")
-		_, isHalt := val.(verifHalt)
-		verifAssert(kind == verifForeign && isHalt, "the interrupt's panic reaches the caller of Run (not swallowed, not converted)")
+		isHalt := false
+		switch pk {
+		case 0:
+			_, isHalt = val.(verifHalt)
+			isHalt = isHalt && kind == verifForeign
+		case 1:
+			v, ok := val.(Value)
+			isHalt = ok && kind == verifOttoExc && v.IsString() && v.String() == "halt"
+		default:
+			e, ok := val.(error)
+			isHalt = ok && kind == verifForeign && e == verifErr
+		}
+		verifAssert(isHalt, "the interrupt's panic reaches the caller of Run unchanged (not swallowed, not converted)")
 		d, _ := vm.Run("done")
 		db, _ := d.ToBoolean()
 		verifAssert(!db, "the script did not continue after the interrupt")
